@@ -96,7 +96,7 @@ Definition set_valid (n : list nat) (nvdim : nat) (vals : list Q) (v : vinput) :
       if negb (length cells =? nprod sh) then Err ValueE
       else if natlist_eqb sh n then OK (mkM n (map truthy cells))     (* np.expand_dims(val, -1)[..., 0] *)
       else match rev sh with
-           | 1 :: _ =>                                               (* np.full((*n, 1), val)[..., 0] *)
+           | 1 :: _ =>                                               (* np.full(n + (1,), val)[..., 0] *)
                if bcast_ok sh (n ++ [1])
                then OK (mtab n (fun i => truthy (nth (ravel sh (bcast_idx sh (i ++ [0]))) cells (SB true))))
                else Err ValueE
@@ -259,7 +259,7 @@ Definition gather {V} (m : mapop) (sh : list nat) (fill : V) (src : idx -> V) : 
   fun i => match map_idx m sh i with Some j => src j | None => fill end.
 
 (* VTK stores the mask as integers, x fastest: astype(int).transpose(2,1,0).reshape(-1);
-   the reader does reshape(*reversed(n)).transpose(2,1,0) and hands the integer array to the setter *)
+   the reader does reshape(reversed n).transpose(2,1,0) and hands the integer array to the setter *)
 Definition rev3 (i : idx) : idx := rev i.
 Definition vtk_encode (v : marr) : list Z :=
   to_list (rev (msh v)) (fun i => if mget v (rev3 i) then 1%Z else 0%Z).
